@@ -23,9 +23,12 @@ NETWORKS = {
 LOCALS = [{"type": "nic", "nic": "lan_nic"}, {"type": "internetip"},
           {"type": "custom", "lnet": "192.168.50.0", "lmask": "255.255.255.0", "rnet": "192.168.60.0", "rmask": "255.255.255.0", "nic": "lan_nic"},
           {"type": "custom", "lnet": "172.17.0.0", "lmask": "255.255.0.0", "rnet": "172.18.0.0", "rmask": "255.255.0.0", "nic": "lan_nic"},
-          {"type": "bogus", "nic": "lan_nic"}]
+          {"type": "bogus", "nic": "lan_nic"},
+          # the LAN nic role is a parameter as well: a second role mapped to another interface
+          {"type": "nic", "nic": "wan_nic"}]
 REMOTES = [{"type": "custom", "nic": "lan_nic"}, {"type": "externalip", "nic": "lan_nic"},
-           {"type": "modeconfig", "modeconfig_ip": "172.30.0.1", "nic": "lan_nic"}, {"type": "bogus", "nic": "lan_nic"}]
+           {"type": "modeconfig", "modeconfig_ip": "172.30.0.1", "nic": "lan_nic"}, {"type": "bogus", "nic": "lan_nic"},
+           {"type": "custom", "nic": "wan_nic"}]
 # the peering nic role is a parameter of its own: the default role and a second one mapped to another interface
 PEERS = [{"type": "ip", "nic": "internet_nic"}, {"type": "dynip", "nic": "internet_nic"}, {"type": "bogus", "nic": "internet_nic"},
          {"type": "ip", "nic": "wan_nic"}, {"type": "dynip", "nic": "wan_nic"}]
@@ -119,10 +122,10 @@ def run(tier: str, seed: int) -> int:
                     chk(a_["vpnconn_lan_net"] == b_["vpnconn_remote_net"], f"{tag}: local net {a_['vpnconn_lan_net']} != remote net {b_['vpnconn_remote_net']}")
                     chk(a_.get("vpnconn_lan_netmask") == b_.get("vpnconn_remote_netmask"), f"{tag}: local netmask != remote netmask")
             if l["type"] == "nic":
-                lan1 = node1.interfaces[node1.params["lan_nic"]].netconfig
+                lan1 = node1.interfaces[node1.params[l["nic"]]].netconfig
                 chk(L.get("vpnconn_lan_net") == lan1.net_ip and R.get("vpnconn_remote_net") == lan1.net_ip, "left nic LAN not mirrored as right remote net")
             if r["type"] == "custom" and l["type"] != "custom":
-                lan2 = node2.interfaces[node2.params["lan_nic"]].netconfig
+                lan2 = node2.interfaces[node2.params[r["nic"]]].netconfig
                 chk(R.get("vpnconn_lan_net") == lan2.net_ip and L.get("vpnconn_remote_net") == lan2.net_ip, "right LAN not mirrored as left remote net")
             if r["type"] == "custom" and l["type"] == "custom":
                 chk(R.get("vpnconn_lan_net") == l["rnet"] and L.get("vpnconn_remote_net") == l["rnet"], "custom right net not mirrored")
@@ -155,7 +158,7 @@ def run(tier: str, seed: int) -> int:
                     chk(False, f"connects_nodes raised {type(e).__name__}: {e}")
             # the end points themselves are connected
             chk(t.connects_nodes(node1, node2), "end points not connected")
-            rep.distinct.add((net_name, n1, n2) + types + (p["nic"], (a or {}).get("left_id"), (a or {}).get("right_id")))
+            rep.distinct.add((net_name, n1, n2) + types + (p["nic"], l.get("nic"), r.get("nic"), (a or {}).get("left_id"), (a or {}).get("right_id")))
             if why:
                 rep.violation(f"{net_name} {n1}->{n2} {types}: {why[0]}", dict(inp, problems=why[:5]),
                               {"kind": "mirror", "what": why[0].split(":")[0][:50] if "connects_nodes" not in why[0] else "connects_nodes asymmetric"})
